@@ -138,6 +138,7 @@ br_ecdsa_i15_sign_raw(const br_ec_impl *impl,
 	br_i15_zero(r, n[0]);
 	br_i15_decode(r, &eU[1], ulen >> 1);
 	r[0] = n[0];
+	BR_VERIF_PUBLIC_MEM(r, sizeof *r);   /* header: announced length of the curve order */
 	br_i15_sub(r, n, br_i15_sub(r, n, 0) ^ 1);
 
 	/*
